@@ -139,7 +139,8 @@ class Shape:
     def __init__(self, ctx):
         P = ctx.P
         self.P = P
-        self.gen = P.fn(CT, "Container._tick_generator")
+        from ..util import inline_helpers
+        self.gen = inline_helpers(P, P.fn(CT, "Container._tick_generator"))   # yield-free private helpers extracted from the generator are inlined
         ctx.touch(self.gen)
         f = self.gen
         self.g = cfg_of(f, subst_env=False)
@@ -221,7 +222,12 @@ def check_plan(ctx):
     oks = segs_def is not None and opv is not None and norm.U(inline_simple_calls(P, segs_def)) in (f"{opv}.values", f"{opv}.get_segments()")
     ctx.ob(6, "K6", "the segments executed are the operator's own segment list, in order", oks, f, ol, construct="segments = op.get_segments()",
            detail=f"{segsv} = {norm.U(segs_def) if segs_def is not None else None}")
-    # plan construction: plan = [] ; for s in segments: plan.append((A, B))
+    # plan construction: plan = [] ; for s in segments: plan.append((A, B))       (the plan may be built under another name and bound afterwards)
+    plan0 = planv
+    for _ in range(3):
+        al = [n for n in ol.body if isinstance(n, ast.Assign) and len(n.targets) == 1 and norm.is_name(n.targets[0], planv) and isinstance(n.value, ast.Name)]
+        if len(al) == 1:
+            planv = al[0].value.id
     inits = [n for n in ol.body if isinstance(n, ast.Assign) and len(n.targets) == 1 and norm.is_name(n.targets[0], planv)]
     apps = [c for c in calls_named(f, "append") if isinstance(c.func, ast.Attribute) and norm.is_name(c.func.value, planv)]
     A = B = None
@@ -261,9 +267,10 @@ def check_plan(ctx):
             ok, got = False, f"not arithmetic: {e}"
         ctx.ob(num, "K7", what, ok, f, apps[0], construct=what.split(" =")[0], detail=f"code over the reals: {got}; documented: {ratform.to_rat(spec, None, consts).text()}")
     # the plan entries are not modified except by the padding below
+    plan_names = {planv, plan0}
     plan_writes = [n for n in own_nodes(f.node) if isinstance(n, (ast.Assign, ast.AugAssign, ast.Delete)) and any(
-        isinstance(t, ast.Subscript) and norm.is_name(t.value, planv) for t in (n.targets if isinstance(n, (ast.Assign, ast.Delete)) else [n.target]))]
-    plan_muts = [c for c in own_nodes(f.node) if isinstance(c, ast.Call) and isinstance(c.func, ast.Attribute) and norm.is_name(c.func.value, planv)
+        isinstance(t, ast.Subscript) and isinstance(t.value, ast.Name) and t.value.id in plan_names for t in (n.targets if isinstance(n, (ast.Assign, ast.Delete)) else [n.target]))]
+    plan_muts = [c for c in own_nodes(f.node) if isinstance(c, ast.Call) and isinstance(c.func, ast.Attribute) and isinstance(c.func.value, ast.Name) and c.func.value.id in plan_names
                  and c.func.attr != "append"]
     # count-down
     decs = [n for n in ast.walk(tl) if isinstance(n, ast.AugAssign) and isinstance(n.target, ast.Name) and isinstance(n.op, ast.Sub)
@@ -288,7 +295,8 @@ def check_plan(ctx):
     if len(init) == 1 and isinstance(init[0].value, ast.Call) and norm.is_name(init[0].value.func, "sum") and len(init[0].value.args) == 1 \
             and isinstance(init[0].value.args[0], (ast.GeneratorExp, ast.ListComp)):
         ge = init[0].value.args[0]
-        if len(ge.generators) == 1 and not ge.generators[0].ifs and norm.is_name(ge.generators[0].iter, planv) and isinstance(ge.generators[0].target, ast.Tuple) \
+        if len(ge.generators) == 1 and not ge.generators[0].ifs and isinstance(ge.generators[0].iter, ast.Name) and ge.generators[0].iter.id in plan_names \
+                and isinstance(ge.generators[0].target, ast.Tuple) \
                 and len(ge.generators[0].target.elts) == 2 and all(isinstance(x, ast.Name) for x in ge.generators[0].target.elts):
             a_, b_ = (x.id for x in ge.generators[0].target.elts)
             oki = ratform.same(ge.elt, ratform.parse(f"{a_} + {b_}")) and g.dominates(bl, init[0]) and g.dominates(init[0], sl)
@@ -325,8 +333,8 @@ def check_plan(ctx):
         blk = pool.block_of(n)
         # the plan must be padded by the same single tick, in the CPU phase of the last segment
         pw = [w for w in plan_writes if any(w is s for s in blk)]
-        okw = len(pw) == 1 and isinstance(pw[0], ast.Assign) and norm.U(pw[0].targets[0]) == f"{planv}[-1]" \
-            and norm.U(pw[0].value) in (f"({planv}[-1][0], 1)", f"({planv}[-1][0], {planv}[-1][1] + 1)")
+        okw = len(pw) == 1 and isinstance(pw[0], ast.Assign) and any(norm.U(pw[0].targets[0]) == f"{pn}[-1]"
+            and norm.U(pw[0].value) in (f"({pn}[-1][0], 1)", f"({pn}[-1][0], {pn}[-1][1] + 1)") for pn in plan_names)
         before = g.dominates(n, sl) and n in ol.body or any(n in getattr(x, "body", []) for x in ol.body)
         if not (zero and one and okw):
             okpad = False
@@ -358,13 +366,23 @@ def check_tick_body(ctx, sh):
     fenv = {k: v for k, v in write_once_fields(P, CT, "Container").items() if k in ("self.tick_length_secs", "self.ticks_per_second")}
     envl = _loop_single_defs(tl)
     seen = set()
+    sites = []
+    from . import sched as _sched
     for c in setters:
-        fs = g.facts_at(c)
+        a0 = c.args[0] if c.args else None
+        if isinstance(a0, ast.Name) and a0.id not in envl:
+            ds = [d_ for d_ in _sched.reaching_defs(f, g, c, a0.id) if isinstance(d_, ast.Assign)]
+            if len(ds) > 1:
+                sites += [(d_, d_.value, c) for d_ in ds]     # the memory value is chosen per branch, then set once
+                continue
+        sites.append((c, a0, c))
+    for at, a0, c in sites:
+        fs = g.facts_at(at)
         in_io = norm.entails(fs, ("cmp", "<", i, IO))
         in_cpu = norm.entails(fs, ("cmp", "<=", IO, i))
         fixed = norm.entails(fs, ("cmp", "isnot", f"{seg}.memory_gb", "None"))
         grow = norm.entails(fs, ("cmp", "is", f"{seg}.memory_gb", "None"))
-        arg = norm.subst(c.args[0], envl) if c.args else None
+        arg = norm.subst(a0, envl) if a0 is not None else None
         case, ok, want = "unclassified", False, "?"
         if arg is not None:
             if in_io and fixed:
@@ -381,7 +399,7 @@ def check_tick_body(ctx, sh):
                 ok = norm.U(arg) == want
         seen.add(case)
         ctx.ob(4, "K2", "memory in each tick follows the model: fixed memory if given (tested with `is not None`), else (i+1)*20/tps GB while reading, "
-               "and the peak memory through the CPU phase", ok, f, c,
+               "and the peak memory through the CPU phase", ok, f, at,
                detail=f"case by the facts at the call: {case}; argument: {norm.U(arg) if arg is not None else None}; required: {want}; "
                       f"facts: {sorted(norm.show(x) for x in fs)}")
     for need_ in ("I/O phase, fixed memory", "I/O phase, growing", "CPU phase"):
